@@ -1,6 +1,7 @@
 import RV.C14.Lemmas
 import RV.C14.SkolemLemmas
 import RV.C14.CanonLemmas
+import RV.C14.SearchLemmas
 /-
   C14 — property statements and theorems.
 
@@ -153,9 +154,11 @@ def Statement_canon_iso_partial : Prop :=
     (∀ a ∈ bnodes g, ∃ c ∈ cs, ∃ rest, c.nodes = ⟨true, a⟩ :: rest) → (cs.map hc).Nodup →
     Spec.Iso g (canonicalTriples (canonLabels hc cs) g)
 
-/-- OPEN (not proved here): completeness of the canonicaliser — isomorphic inputs get EQUAL canonical graphs.
-    For rdflib this is the correctness of the `_traces` search with `_experimental_path` / `_create_generator`
-    pruning, which is not modelled; it is covered only by the correspondence run against `isoDecide`. -/
+/-- OPEN for rdflib's own `_traces` (not proved here): completeness of a canonicaliser `canon` — isomorphic inputs get
+    EQUAL canonical graphs.  For the EXHAUSTIVE search model this is `canonSearch_complete` below; `_traces` differs
+    from it by score- and automorphism-based pruning (`_experimental_path`, `_is_automorphism`, `_create_generator`),
+    which is not modelled: that pruning never changes the verdict is covered by the correspondence run, which compares
+    rdflib's verdicts with `canonSearch` (unpruned) and `isoDecide` on highly symmetric graphs. -/
 def Statement_canon_complete (canon : Graph → Graph) : Prop :=
   ∀ g h : Graph, Spec.Iso g h → SetEq (canon g) (canon h)
 
@@ -201,6 +204,74 @@ example : Spec.Iso [(b 1, p, b 2), (b 2, p, b 3), (b 3, p, b 1)]
 example : distinguishItems 5 [(b 1, p, b 2), (b 2, p, b 3)] [b 1, b 2, b 3] (b 2) =
     [.inn 5 p, .out p 5] := by decide
 example : distinguishItems 5 [(b 1, p, b 2), (b 2, p, b 3)] [b 1, b 2, b 3] (b 1) = [.out p 5] := by decide
+
+
+/-! ## The exhaustive individualisation–refinement search `canonSearch` (RV/C14/Search.lean)
+
+    The unpruned reference for `_traces`: refine, and if the colouring is not discrete individualise each member of the
+    first non-trivial cell in turn and recurse; the canonical form is the minimum of the leaves' label-free
+    serialisations.  `H` (a sum of hashes in the code) is only assumed invariant under permutation of its items
+    (`PermInv`); discreteness is tested on the colours themselves, so no collision-freeness is assumed. -/
+
+/-- (i) the search is equivariant: for an isomorphism `π : g → h` (both triple lists duplicate-free, no blank predicates)
+    the leaves below the image of an individualisation path are a permutation of the leaves below the path — leaves
+    being label-free, they are literally the same serialisations -/
+def Statement_canonSearch_equivariant : Prop :=
+  ∀ (Hs : Hashes), PermInv Hs → ∀ (π : Nat → Nat) (g h : Graph), g.Nodup → h.Nodup → NoBlankPred g → IsIso π g h →
+    ∀ (fuel : Nat) (ind : List Nat), (∀ x ∈ ind, x ∈ bnodes g) →
+      (leaves Hs h fuel (ind.map π)).Perm (leaves Hs g fuel ind)
+
+/-- (ii) completeness of the exhaustive search: isomorphic inputs get the SAME canonical form -/
+def Statement_canonSearch_complete : Prop :=
+  ∀ (Hs : Hashes), PermInv Hs → ∀ (g h : Graph), g.Nodup → h.Nodup → NoBlankPred g →
+    Spec.Iso g h → canonSearch Hs g = canonSearch Hs h
+
+/-- soundness: a common canonical form is a common injective relabelling, so the inputs are isomorphic
+    (no assumption on the hashes at all) -/
+def Statement_canonSearch_sound : Prop :=
+  ∀ (Hs : Hashes) (g h : Graph) (L : List (List Nat)),
+    canonSearch Hs g = some L → canonSearch Hs h = some L → Spec.Iso g h
+
+/-- (iii) whenever the search finds a leaf for `g`, equality of canonical forms decides isomorphism -/
+def Statement_canonSearch_decides : Prop :=
+  ∀ (Hs : Hashes), PermInv Hs → ∀ (g h : Graph), g.Nodup → h.Nodup → NoBlankPred g → canonSearch Hs g ≠ none →
+    (canonSearch Hs g = canonSearch Hs h ↔ Spec.Iso g h)
+
+/-- the driver's concrete hashes meet the one assumption of the theorems -/
+def Statement_driverHashes_permInv : Prop := PermInv driverHashes
+
+theorem isoData_of_isIso {π : Nat → Nat} {g h : Graph} (hg : g.Nodup) (hh : h.Nodup) (hp : NoBlankPred g)
+    (hσ : IsIso π g h) : IsoData π g h :=
+  ⟨hσ.inj, perm_of_nodup_setEq hσ.inj hg hh hσ.image, hp⟩
+
+theorem canonSearch_equivariant : Statement_canonSearch_equivariant :=
+  fun Hs hH _ _ _ hg hh hp hσ fuel ind hind =>
+    leaves_equivariant Hs hH (isoData_of_isIso hg hh hp hσ) fuel ind hind
+
+theorem canonSearch_complete : Statement_canonSearch_complete := by
+  intro Hs hH g h hg hh hp ⟨π, hσ⟩
+  exact (canonSearch_eq_of_isoData Hs hH (isoData_of_isIso hg hh hp hσ)).symm
+
+theorem canonSearch_sound : Statement_canonSearch_sound :=
+  fun Hs _ _ _ hg hh => iso_iff_raw.mpr (rawIso_of_common_leaf Hs hg hh)
+
+theorem canonSearch_decides : Statement_canonSearch_decides := by
+  intro Hs hH g h hg hh hp hne
+  constructor
+  · intro e
+    cases hL : canonSearch Hs g with
+    | none => exact absurd hL hne
+    | some L => exact canonSearch_sound Hs g h L hL (by rw [← e, hL])
+  · exact canonSearch_complete Hs hH g h hg hh hp
+
+theorem driverHashes_perm_invariant : Statement_driverHashes_permInv := driverHashes_permInv
+
+/-- non-vacuity: the directed 3-cycle and a relabelled copy get the same canonical form, a 3-path does not -/
+example : canonSearch driverHashes [(b 1, p, b 2), (b 2, p, b 3), (b 3, p, b 1)] =
+    canonSearch driverHashes [(b 9, p, b 7), (b 8, p, b 9), (b 7, p, b 8)] := by decide
+example : canonSearch driverHashes [(b 1, p, b 2), (b 2, p, b 3), (b 3, p, b 1)] ≠
+    canonSearch driverHashes [(b 1, p, b 2), (b 2, p, b 3), (b 1, p, b 3)] := by decide
+example : canonSearch driverHashes [(b 1, p, b 2), (b 2, p, b 3), (b 3, p, b 1)] ≠ none := by decide
 
 /-! ## Skolemisation -/
 
